@@ -58,6 +58,11 @@ func stRun(entries [][2]string, qs []stQuery) (string, []string) {
 				obs = errTermRes(err)
 				return
 			}
+			if i%2 == 1 {
+				// the handle is used for other data types between resolving the symbol and calling the function
+				rs.GetCode(c, q.sym)
+				rs.GetTemplate(c, q.sym)
+			}
 			r, err := fn(c, q.sym, nil)
 			if err != nil {
 				obs = errTermRes(err)
